@@ -1,310 +1,9 @@
 (* C11 — origin of the accepted-inbound state, the open-request ledger, the environment guards. *)
 From Coq Require Import List NArith Bool Lia.
 From V.C11 Require Import Model PBase PAlt PInv.
+From V.C11 Require Export PAccept PLedgerA PLedgerB.
 Import ListNotations.
 Open Scope N_scope.
-
-(* ================================================================== the accepted-inbound state has an origin *)
-Definition acc_inb (x : option pstate) : bool :=
-  match x with Some (Validating _ _ (ISending | IOpen)) => true | _ => false end.
-
-(* the two transitions that accept an inbound substream: the user's Accept for a substream that is
-   being validated, and the auto-accept branch (auto_accept configured and an outbound substream
-   already initiated) when the remote handshake has been read *)
-Definition is_accept (c : cfg) (s : st) (o : op) (p : peer) : bool :=
-  match o with
-  | Validate q true =>
-      (q =? p) && hval s p &&
-      match ps s p with Some (Validating _ _ IValidating) => true | _ => false end
-  | HsIn q true =>
-      (q =? p) && hsI s p && auto_accept c &&
-      match ps s p with Some (Validating _ ob IReading) => negb (o_closed ob) | _ => false end
-  | _ => false
-  end.
-
-Definition noacc (s s' : st) : Prop := forall q, acc_inb (ps s' q) = true -> acc_inb (ps s q) = true.
-
-Ltac acc_close :=
-  let q := fresh "q" in let A := fresh "A" in let N0 := fresh "N" in let E := fresh "E" in
-  intros q A N0; setters; unfold upd in A;
-  repeat match type of A with context [q =? ?p] => destruct (q =? p) eqn:E; [apply N.eqb_eq in E; subst q|] end;
-  try congruence; cbn in A; try discriminate A;
-  repeat match goal with E : ps _ _ = _ |- _ => rewrite E in N0 end; cbn in N0; try discriminate N0;
-  repeat match goal with E : _ && _ = true |- _ => apply andb_true_iff in E; destruct E end;
-  cbn [is_accept]; rewrite ?N.eqb_refl;
-  repeat match goal with E : _ = _ |- _ => rewrite E end; cbn; try reflexivity; try congruence.
-
-Lemma noacc_on_shutdown s p q : acc_inb (ps (on_shutdown s p) q) = true -> acc_inb (ps s q) = true.
-Proof.
-  unfold on_shutdown. destruct (ps s p) as [[]|] eqn:Hp; auto. destruct (task_closed s k); auto.
-  setters. unfold upd. destruct (q =? p); auto. discriminate.
-Qed.
-
-Lemma accept_main c s o s1 ev cl :
-  main_handler c s o = Some (s1, ev, cl) ->
-  forall q, acc_inb (ps s1 q) = true -> acc_inb (ps s q) = false -> is_accept c s o q = true.
-Proof.
-  intros M. destruct o; unfold_handlers M.
-  all: try (split_all; try (acc_close; fail); fail).
-  - split_all; try (acc_close; fail). intros q A N0. apply noacc_on_shutdown in A. setters. congruence.
-  - match type of M with context [finish_tasks ?a ?b] => destruct (finish_tasks a b) as [[l' e'] n'] end.
-    split_all. intros q A N0. unfold run_shutdowns in A.
-    match type of A with context [if ?b then _ else _] => destruct b end; [|apply noacc_on_shutdown in A]; setters; congruence.
-  - split_all; try (acc_close; fail). intros q A N0. apply noacc_on_shutdown in A. setters. congruence.
-Qed.
-
-Lemma noacc_on_validation s p s1 ev cl q :
-  on_validation s p false = Some (s1, ev, cl) -> acc_inb (ps s1 q) = true -> acc_inb (ps s q) = true.
-Proof.
-  intros M. unfold on_validation, svc_open, ok, ok_ev in M. setters_in M.
-  split_all; intros A; setters; unfold upd in A;
-    repeat match type of A with context [q =? ?r] => destruct (q =? r) end; auto; discriminate A.
-Qed.
-
-Lemma noacc_task_dies s k s' ev q : task_dies s k = (s', ev) -> acc_inb (ps s' q) = true -> acc_inb (ps s q) = true.
-Proof.
-  unfold task_dies. destruct (find_task k (tasks s)) as [t|]; [|intros E; injection E as <- _; auto].
-  destruct (t_closing t); [intros E; injection E as <- _; auto|].
-  destruct (t_gated t); intros E; injection E as <- _; auto.
-  intros A. apply noacc_on_shutdown in A. exact A.
-Qed.
-
-Lemma noacc_kill ks : forall s s' ev q, kill_tasks s ks = (s', ev) -> acc_inb (ps s' q) = true -> acc_inb (ps s q) = true.
-Proof.
-  induction ks as [|k t IH]; intros s s' ev q; cbn.
-  - intros E; injection E as <- _; auto.
-  - destruct (task_dies s k) as [s1 e1] eqn:E1. destruct (kill_tasks s1 t) as [s2 e2] eqn:E2.
-    intros E; injection E as <- _. intros A. eapply noacc_task_dies; eauto.
-Qed.
-
-Lemma accept_step c s o s' ev cl q :
-  step c s o = Some (s', ev, cl) -> acc_inb (ps s' q) = true -> acc_inb (ps s q) = false ->
-  is_accept c s o q = true.
-Proof.
-  unfold step. destruct (main_handler c s o) as [[[s1 ev1] cl1]|] eqn:M; [|discriminate].
-  destruct (drain s1 ev1) as [[s2 dr] ks] eqn:D. pose proof (drain_tasks _ _ _ _ _ D) as (P2 & _).
-  destruct (kill_tasks s2 ks) as [s4 ev4] eqn:K.
-  destruct (drain s4 ev4) as [[s5 x] y] eqn:D5. pose proof (drain_tasks _ _ _ _ _ D5) as (P5 & _).
-  intros E; injection E as <- _ _. rewrite P5. intros A N0.
-  eapply accept_main; eauto. rewrite <- P2.
-  eapply noacc_kill; eauto.
-Qed.
-
-Lemma acc_history c p pre : forall s0 s,
-  exec c s0 pre = Some s -> acc_inb (ps s p) = true ->
-  acc_inb (ps s0 p) = true \/
-  exists pre1 a pre2 s1, pre = pre1 ++ a :: pre2 /\ exec c s0 pre1 = Some s1 /\ is_accept c s1 a p = true.
-Proof.
-  induction pre as [|a t IH]; intros s0 s; cbn.
-  - intros E; injection E as <-. auto.
-  - destruct (step c s0 a) as [[[s1 ev] cl]|] eqn:S; [|discriminate].
-    intros E A. destruct (IH _ _ E A) as [A1|(pre1 & b & pre2 & s2 & -> & E1 & Acc)].
-    + destruct (acc_inb (ps s0 p)) eqn:A0; auto. right.
-      exists [], a, t, s0. repeat split; auto. eapply accept_step; eauto.
-    + right. exists (a :: pre1), b, pre2, s2. repeat split; auto. cbn. now rewrite S.
-Qed.
-
-Lemma accepted_in_acc x d : accepted_in x d -> acc_inb x = true.
-Proof. intros [(i & -> & ->)|(o & -> & ->)]; reflexivity. Qed.
-
-Lemma inbound_needs_accept c pre s o s' ev cl p d :
-  exec c init pre = Some s -> step c s o = Some (s', ev, cl) -> In (UOpened p d) ev ->
-  exists pre1 a pre2 s1,
-    pre = pre1 ++ a :: pre2 /\ exec c init pre1 = Some s1 /\ is_accept c s1 a p = true.
-Proof.
-  intros E S HIn. pose proof (accepted_in_acc _ _ (step_opened _ _ _ _ _ _ _ _ S HIn)) as A.
-  destruct (acc_history c p pre init s E A) as [A0|X]; auto. discriminate A0.
-Qed.
-
-(* ================================================================== the open-request ledger *)
-Definition in_progress (x : option pstate) : bool :=
-  match x with
-  | Some (OutInit _) => true
-  | Some (Validating _ o _) => negb (o_closed o)
-  | _ => false
-  end.
-Definition is_answer (p : peer) (e : uev) : bool :=
-  match e with UOpened q _ | UFail q _ => q =? p | _ => false end.
-Definition has_answer (p : peer) (ev : list uev) : bool := existsb (is_answer p) ev.
-Definition has_validate (p : peer) (ev : list uev) : bool :=
-  existsb (fun e => match e with UValidate q => q =? p | _ => false end) ev.
-
-(* an open request the protocol takes up: the user's command passes the handle gate and finds the
-   peer connected with no negotiation in progress (PeerState::Closed, with or without a remembered
-   pending substream id) *)
-Definition request_accepted (s : st) (o : op) (p : peer) : bool :=
-  match o with
-  | CmdOpen q => (q =? p) && negb (hopen s p) &&
-                 match ps s p with Some (Closed _) => true | _ => false end
-  | _ => false
-  end.
-(* the user rejects the inbound substream of the peer that is being validated: the code discards an
-   outbound attempt as well, without a report (finding class 3 when an outbound attempt exists) *)
-Definition user_reject (s : st) (o : op) (p : peer) : bool :=
-  match o with
-  | Validate q false => (q =? p) && hval s p &&
-                        match ps s p with Some (Validating _ _ IValidating) => true | _ => false end
-  | _ => false
-  end.
-
-Ltac leave_close :=
-  let q := fresh "q" in let A := fresh "A" in let N0 := fresh "N" in let E := fresh "E" in
-  intros q A N0; setters; unfold upd in N0;
-  repeat match type of N0 with context [q =? ?p] => destruct (q =? p) eqn:E; [apply N.eqb_eq in E; subst q|] end;
-  try congruence;
-  repeat match goal with E : ps _ _ = _ |- _ => rewrite E in A end; cbn in A; try discriminate A;
-  repeat match goal with o : outb |- _ => destruct o end; cbn in A, N0; try discriminate A; try discriminate N0;
-  repeat match goal with E : o_closed _ = _ |- _ => cbn in E; try discriminate E end;
-  cbn [has_answer existsb is_answer user_reject]; rewrite ?N.eqb_refl; cbn;
-  first [ left; reflexivity
-        | right; repeat match goal with E : _ = _ |- _ => rewrite E end; reflexivity ].
-
-Lemma inprog_on_shutdown s p q : in_progress (ps (on_shutdown s p) q) = in_progress (ps s q).
-Proof.
-  unfold on_shutdown. destruct (ps s p) as [[]|] eqn:Hp; auto. destruct (task_closed s k); auto.
-  setters. unfold upd. destruct (q =? p) eqn:E; auto. apply N.eqb_eq in E. subst q. now rewrite Hp.
-Qed.
-
-Lemma leave_main c s o s1 ev cl :
-  main_handler c s o = Some (s1, ev, cl) ->
-  forall q, in_progress (ps s q) = true -> in_progress (ps s1 q) = false ->
-            has_answer q ev = true \/ user_reject s o q = true.
-Proof.
-  intros M. destruct o; unfold_handlers M.
-  all: try (split_all; try (leave_close; fail); fail).
-  - split_all; try (leave_close; fail). intros q A N0. rewrite inprog_on_shutdown in N0. setters. congruence.
-  - match type of M with context [finish_tasks ?a ?b] => destruct (finish_tasks a b) as [[l' e'] n'] end.
-    split_all. intros q A N0. unfold run_shutdowns in N0.
-    match type of N0 with context [if ?b then _ else _] => destruct b end; [|rewrite inprog_on_shutdown in N0]; setters; congruence.
-  - split_all; try (leave_close; fail). intros q A N0. rewrite inprog_on_shutdown in N0. setters. congruence.
-Qed.
-
-(* no kept failed id (outside finding class 2): every substream id a peer state waits for is owed by the transport *)
-Definition B3 (s : st) : Prop := forall p x, wq (ps s p) = Some x -> In (x, p) (spend s).
-
-Definition class2_step (s : st) (o : op) : bool :=
-  match o with
-  | OpenFail p =>
-      conn s p &&
-      match first_req p (spend s) with
-      | Some _ => match ps s p with Some (Validating _ (OInit _) _) => true | _ => false end
-      | None => false
-      end
-  | _ => false
-  end.
-
-Lemma B3_mono s s' :
-  B3 s -> (forall q x, wq (ps s' q) = Some x -> wq (ps s q) = Some x) ->
-  (forall e, In e (spend s) -> In e (spend s')) -> B3 s'.
-Proof. intros B W S p x H. apply S, B, W, H. Qed.
-
-Lemma B3_new s s' p v :
-  B3 s -> ps_at s s' p v -> wq v = Some (nsid s) -> spend s' = spend s ++ [(nsid s, p)] -> B3 s'.
-Proof.
-  intros B PA Wv S q x H. rewrite S. apply in_or_app. rewrite PA in H. destruct (q =? p) eqn:E.
-  - apply N.eqb_eq in E. subst q. rewrite Wv in H. injection H as <-. right. left. reflexivity.
-  - left. auto.
-Qed.
-
-Lemma B3_answer s s' p x v :
-  B3 s -> SB s -> In (x, p) (spend s) -> ps_at s s' p v -> wq v = None ->
-  spend s' = pend_remove x (spend s) -> B3 s'.
-Proof.
-  intros B SBs Hx PA Wv S q y H. rewrite S. rewrite PA in H. destruct (q =? p) eqn:E.
-  - rewrite Wv in H. discriminate.
-  - apply in_pend_remove. split; auto. intros ->. apply N.eqb_neq in E. apply E.
-    eapply spend_owner; eauto.
-Qed.
-
-Lemma B3_closed s s' p v :
-  B3 s -> ps_at s s' p v -> wq v = None -> spend s' = drop_peer p (spend s) -> B3 s'.
-Proof.
-  intros B PA Wv S q y H. rewrite S. rewrite PA in H. destruct (q =? p) eqn:E.
-  - rewrite Wv in H. discriminate.
-  - apply in_drop_peer. split; auto. now apply N.eqb_neq.
-Qed.
-
-Ltac wq_mono_close :=
-  let q := fresh "q" in let x := fresh "x" in let E := fresh "E" in let X := fresh "X" in
-  intros q x; setters; unfold upd;
-  repeat (match goal with |- context [q =? ?p] => destruct (q =? p) eqn:E; [apply N.eqb_eq in E; subst q|] end);
-  repeat match goal with E : ps _ _ = _ |- _ => rewrite E end;
-  repeat match goal with o : outb |- _ => destruct o end; cbn; intros X; first [exact X | discriminate X | congruence].
-Ltac B3_mono_close B := eapply (B3_mono _ _ B); [wq_mono_close | setters; intros e He; first [exact He | apply in_or_app; left; exact He]].
-Ltac B3_new_close B :=
-  match goal with |- context [spend ?s ++ [(nsid ?s, ?p)]] =>
-    eapply (B3_new s _ p _ B); [psat_close | reflexivity | reflexivity] end.
-Ltac B3_closed_close B :=
-  match goal with |- context [drop_peer ?p (spend ?s)] =>
-    eapply (B3_closed s _ p _ B); [psat_close | reflexivity | reflexivity] end.
-Ltac B3_answer_close B SBs :=
-  same_peer SBs;
-  match goal with Hf : first_req ?p (spend ?s) = Some ?x |- _ =>
-    eapply (B3_answer s _ p x _ B SBs); [apply first_req_in; exact Hf | psat_close | reflexivity | reflexivity] end.
-Ltac class2_contra C2 :=
-  exfalso; unfold class2_step in C2;
-  repeat match goal with E : _ = _ |- _ => tryif constr_eq E C2 then fail else rewrite E in C2 end; cbn in C2; discriminate C2.
-Ltac B3_close B SBs C2 :=
-  first [B3_mono_close B | B3_new_close B | B3_closed_close B | B3_answer_close B SBs | (same_peer SBs; class2_contra C2)].
-
-Lemma B3_on_shutdown s p : B3 s -> B3 (on_shutdown s p).
-Proof.
-  intros B. unfold on_shutdown. destruct (ps s p) as [[]|] eqn:Hp; auto.
-  destruct (task_closed s k); auto. B3_mono_close B.
-Qed.
-
-Lemma B3_main c s o s1 ev cl :
-  B3 s -> SB s -> class2_step s o = false -> main_handler c s o = Some (s1, ev, cl) -> B3 s1.
-Proof.
-  intros B SBs C2 M. destruct o; unfold_handlers M.
-  all: try (split_all; try (B3_close B SBs C2; fail); fail).
-  - split_all; try (B3_close B SBs C2; fail). apply B3_on_shutdown. B3_mono_close B.
-  - match type of M with context [finish_tasks ?a ?b] => destruct (finish_tasks a b) as [[l' e'] n'] end.
-    split_all. unfold run_shutdowns. match goal with |- context [if ?b then _ else _] => destruct b end; [|apply B3_on_shutdown]; B3_mono_close B.
-  - split_all; try (B3_close B SBs C2; fail). apply B3_on_shutdown. B3_mono_close B.
-Qed.
-
-(* no replaced validation: a substream that is being validated has its request at the handle *)
-Definition val_state (x : option pstate) : bool :=
-  match x with Some (Validating _ _ IValidating) => true | _ => false end.
-Definition L3 (s : st) : Prop := forall p, val_state (ps s p) = true -> hval s p = true.
-
-Ltac L3_close L :=
-  let q := fresh "q" in let V := fresh "V" in let E := fresh "E" in
-  intros q V; setters; unfold upd in *;
-  repeat match goal with
-         | _ : context [q =? ?p] |- _ => destruct (q =? p) eqn:E; [apply N.eqb_eq in E; subst q|]
-         | |- context [q =? ?p] => destruct (q =? p) eqn:E; [apply N.eqb_eq in E; subst q|]
-         end;
-  cbn in V; try discriminate V;
-  try (repeat match goal with E : ps _ _ = _ |- _ => rewrite E in V end; cbn in V; discriminate V);
-  first [ left; apply L; repeat match goal with E : ps _ _ = _ |- _ => rewrite E end; first [exact V | reflexivity]
-        | right; cbn; rewrite ?N.eqb_refl; reflexivity ].
-
-Lemma val_on_shutdown s p q : val_state (ps (on_shutdown s p) q) = true -> val_state (ps s q) = true.
-Proof.
-  unfold on_shutdown. destruct (ps s p) as [[]|] eqn:Hp; auto. destruct (task_closed s k); auto.
-  setters. unfold upd. destruct (q =? p); auto. discriminate.
-Qed.
-
-Lemma hval_on_shutdown s p : hval (on_shutdown s p) = hval s.
-Proof.
-  unfold on_shutdown. destruct (ps s p) as [[]|]; auto. destruct (task_closed s k); auto.
-Qed.
-
-Lemma L3_main c s o s1 ev cl :
-  L3 s -> main_handler c s o = Some (s1, ev, cl) ->
-  forall q, val_state (ps s1 q) = true -> hval s1 q = true \/ has_validate q ev = true.
-Proof.
-  intros L M. destruct o; unfold_handlers M.
-  all: try (split_all; try (L3_close L; fail); fail).
-  - split_all; try (L3_close L; fail). intros q V. apply val_on_shutdown in V. rewrite hval_on_shutdown. left. apply L, V.
-  - match type of M with context [finish_tasks ?a ?b] => destruct (finish_tasks a b) as [[l' e'] n'] end.
-    split_all. intros q V. unfold run_shutdowns in *.
-    match goal with |- context [if ?b then _ else _] => destruct b end;
-      [|apply val_on_shutdown in V; rewrite hval_on_shutdown]; left; apply L, V.
-  - split_all; try (L3_close L; fail). intros q V. apply val_on_shutdown in V. rewrite hval_on_shutdown. left. apply L, V.
-Qed.
 
 Lemma request_main c s o p s1 ev cl :
   request_accepted s o p = true -> main_handler c s o = Some (s1, ev, cl) ->
